@@ -320,7 +320,11 @@ class C09(Check):
                     qp = qs_all[tape.draw(len(qs_all), "sweep-qubit")]
                     pos = tape.draw(len(sim_circuit) + 1, "sweep-pos")
                     swept = sim_circuit.copy()
-                    swept.insert(0, (cirq.X ** tsym).on(qp), strategy=cirq.InsertStrategy.NEW)
+                    # the part before the first parameterised operation is simulated once and *copied* for
+                    # every sweep point: put the first symbol at a tape-chosen depth so that this shared
+                    # prefix is sometimes empty and sometimes holds entangled, measured or noisy state
+                    pos0 = tape.draw(pos + 1, "sweep-first-pos")
+                    swept.insert(pos0, (cirq.X ** tsym).on(qp), strategy=cirq.InsertStrategy.NEW)
                     swept.insert(min(pos + 1, len(swept)), (cirq.Z ** (tsym * 0.5)).on(qp), strategy=cirq.InsertStrategy.NEW)
                     values = [[0.25, 1.0], [1.0, 0.0, 0.5], [0.5, 0.75]][tape.draw(3, "sweep-values")]
                     if noise is not None and (kind == "dm" or sv_unitary_noise):
